@@ -7,8 +7,10 @@ DC = 'fiddle/_src/experimental/dataclasses.py'
 CASES = [
     dict(id='c20-revert-materialize-fix', prop='C20', file=M, expect='violation',
          edits=[("""        if arg.kind == arg.POSITIONAL_ONLY:
-          # Positional-only arguments are stored (and set) by index.
-          if index not in node.__arguments__:
+          # Positional-only arguments are stored (and set) by index. A value
+          # cannot be passed after an unset positional-only argument (e.g. in
+          # a Partial), so a default following such a gap stays implicit.
+          if index not in node.__arguments__ and not positional_gap:
             node[index] = arg.default
         elif arg.name not in node.__arguments__:""", """        if arg.name not in node.__arguments__:""")]),
     dict(id='c20-materialize-overwrites', prop='C20', file=M, expect='violation',
@@ -36,4 +38,22 @@ CASES = [
     # benign
     dict(id='c20-benign-materialize-kind-tuple', prop='C20', file=M, expect='silent',
          edits=[("        if arg.kind == arg.POSITIONAL_ONLY:", "        if arg.kind in (arg.POSITIONAL_ONLY,):")]),
+]
+
+_M = 'fiddle/_src/materialize.py'
+CASES += [
+    dict(id='c20-benign-parameters-list', prop='C20', file=_M, expect='silent',
+         edits=[("      parameters = node.__signature_info__.parameters.values()\n",
+                 "      parameters = list(node.__signature_info__.parameters.values())\n")]),
+    dict(id='c20-gap-flag-removed', prop='C20', file=_M, expect='violation',
+         names='GAP.positional-default',
+         edits=[("          if index not in node.__arguments__ and not positional_gap:",
+                 "          if index not in node.__arguments__:")]),
+    dict(id='c20-gap-flag-never-raised', prop='C20', file=_M, expect='violation',
+         names='GAP.positional-default',
+         edits=[("            positional_gap = True\n", "            positional_gap = False\n")]),
+    dict(id='c20-index-of-filtered-list', prop='C20', file=_M, expect='violation',
+         names='IDX.signature-position',
+         edits=[("      for index, arg in enumerate(parameters):",
+                 "      for index, arg in enumerate(\n          [a for a in parameters if a.kind != a.VAR_KEYWORD]):")]),
 ]
